@@ -168,3 +168,22 @@ PROPS["C04"] = dict(
         dict(name="fuzz", fuzz="FuzzJSON", fuzztime=180),
     ],
 )
+
+PROPS["C05"] = dict(
+    pkg="c05", level="exploration",
+    technique="property-based testing (rapid) with an independent logfmt tokenizer + strconv.Unquote as judge, in a production-mode and a testing-mode binary; native fuzzing",
+    claim=("Generated records (as for C04, with legal logfmt keys) are emitted in logfmt mode; the payload must be one line that the harness's own "
+           "tokenizer accepts completely: time, logger (iff named), level, msg in that order, then exactly the flattened attributes (dotted keys "
+           "for group members, ascending order) with every string-like value quoted and unquoting to the exact bytes, numbers/bools bare and "
+           "exact, then the caller pairs iff enabled. The check runs in a production-mode copy of the binary (one-line clause for every value "
+           "kind incl. errors) and under go test (the multi-line error dump after the line is exempt)."),
+    note="Keys: non-empty, valid UTF-8, no space/'='/quote/control/'.'; reserved names excluded at every level; runs of blanks between pairs are accepted (statement: space-separated); nil may be printed as the bare placeholder <nil>.",
+    rule=("as C04 with keys from the legal-logfmt class. Non-trivial: a group followed by at least one sibling in key order, or a hostile byte class "
+          "in message/value, or a non-string kind, or a group; distinct = the set of classes and kinds present."),
+    assumptions=["strconv.Unquote is the inverse of the quoting the statement asks for", "production mode = harness binary run under a name not ending in .test"],
+    stages=[
+        dict(name="production", run="^TestLogfmtRecords$", mode="prod", quick=30000, thorough=800000, shards=16, timeout_thorough=3000),
+        dict(name="testing", run="^TestLogfmtRecords$", quick=20000, thorough=800000, shards=16, timeout_thorough=3000),
+        dict(name="fuzz", fuzz="FuzzLogfmt", fuzztime=180),
+    ],
+)
